@@ -344,6 +344,14 @@ var ruleLabelPaths = &core.Rule{ID: "R12.10", Min: 5,
 				if g == nil || !core.InMod(g) || g == cm.plain || g == cm.bomFn || !core.IsString(call.Type()) {
 					continue
 				}
+				// a declaration reader: it gets to the tokenizer / decoder and not to the plain sniffer (whose body, or a
+				// combinator that runs it, is the fallback itself)
+				parses := reachesCallee(g, func(cc *ssa.CallCommon) bool {
+					return core.CalleeIs(cc, pkgHTML, "NewTokenizer") || core.CalleeIs(cc, "encoding/xml", "NewDecoder")
+				}, map[*ssa.Function]bool{})
+				if !parses || g == getPlain(c).g || reachesFn(g, cm.plain, map[*ssa.Function]bool{}) || reachesFn(g, getPlain(c).g, map[*ssa.Function]bool{}) {
+					continue
+				}
 				key := fmt.Sprintf("%s: non-empty answer of %s is returned", core.FName(sn), g.Name())
 				ev := newEval(c)
 				ev.Env = fde.Env{call: constant.MakeString("x-label")}
